@@ -4,8 +4,12 @@ use syn::{Error, FnArg, Pat};
 
 use super::{
     types::{ArgInfo, MethodAttrs},
-    utils::{convert_to_single_lifetime, snake_case_to_pascal_case, type_contains_lifetime},
+    utils::{
+        convert_to_single_lifetime, extract_param_rename_attr, param_field_attrs,
+        snake_case_to_pascal_case, type_contains_lifetime,
+    },
 };
+use crate::utils::is_option_type;
 
 pub(super) fn generate_chain_extension_method(
     method: &mut syn::TraitItemFn,
@@ -58,6 +62,16 @@ pub(super) fn generate_chain_extension_method(
         })
         .collect();
 
+    let struct_fields: Vec<_> = arg_infos
+        .iter()
+        .map(|info| {
+            let name = info.name;
+            let ty = &info.ty_for_params;
+            let attrs = param_field_attrs(&info.serialized_name, info.is_optional);
+            quote! { #attrs #name: #ty }
+        })
+        .collect();
+
     if arg_infos.is_empty() {
         generate_no_params_method(&method_ident, &method_path, crate_path)
     } else {
@@ -67,6 +81,7 @@ pub(super) fn generate_chain_extension_method(
             generics,
             combined_where_clause,
             param_fields,
+            struct_fields,
             arg_names,
             &method_generic_params,
             &method_where_clause,
@@ -107,12 +122,18 @@ fn parse_method_arguments<'a>(
             // Check if this argument has lifetimes
             let has_lifetime = type_contains_lifetime(&ty_for_params);
 
+            // Same wire name and `None` handling as the plain method.
+            let serialized_name = extract_param_rename_attr(&mut pat_type.attrs.clone())
+                .ok()
+                .flatten();
+            let is_optional = is_option_type(ty);
+
             Some(Ok(ArgInfo {
                 name,
                 ty_for_params,
                 has_lifetime,
-                is_optional: false,
-                serialized_name: None,
+                is_optional,
+                serialized_name,
             }))
         })
         .collect()
@@ -195,6 +216,7 @@ fn generate_with_params_method(
     generics: TokenStream,
     combined_where_clause: TokenStream,
     param_fields: Vec<TokenStream>,
+    struct_fields: Vec<TokenStream>,
     arg_names: Vec<&syn::Ident>,
     method_generic_params: &syn::punctuated::Punctuated<syn::GenericParam, syn::Token![,]>,
     method_where_clause: &Option<syn::WhereClause>,
@@ -253,7 +275,7 @@ fn generate_with_params_method(
                 struct #params_struct_name #generics
                 #struct_where
                 {
-                    #(#param_fields,)*
+                    #(#struct_fields,)*
                 }
 
                 #[derive(::serde::Serialize, ::core::fmt::Debug)]
